@@ -177,12 +177,22 @@ class Repo:
             for rel, src, tree in parsed:
                 if rel.startswith(PKG) and not rel.startswith(PKG + "/resources"):
                     sigs.add_tree(tree)
+        self.moved_back = []
+        if INLINE:
+            try:
+                import json as _json
+
+                with open(os.path.join(os.path.dirname(os.path.abspath(__file__)), "baseline_symbols.json")) as f:
+                    rows = _json.load(f)
+                self.moved_back = _canon.move_back({rel: tree for rel, src, tree in parsed if rel.startswith(PKG) and not rel.startswith(PKG + "/resources")}, rows)
+            except OSError:
+                pass
         for rel, src, tree in parsed:
             inlined = []
             if INLINE and rel.startswith(PKG):
                 from .inline import inline_new_helpers, canonicalise_accumulate_loops, renest_lifted
 
-                cn = _canon.canonicalise(tree, sigs)
+                cn = _canon.canonicalise(tree, sigs, rel)
                 for k, v in cn.items():
                     if v:
                         self.canon_counts[k] = self.canon_counts.get(k, 0) + v
@@ -201,7 +211,42 @@ class Repo:
         for m in self.modules.values():
             for c in m.classes.values():
                 self.class_index.setdefault(c.name, []).append(c)
+        self._register_new_functions()
         self._register_namedtuple_returns()
+
+    def _register_new_functions(self) -> None:
+        """Functions the pinned tree does not have (hivecheck/baseline_symbols.json), by name: the path enumerator splices their
+        paths into their callers (flow.PathEnumerator._splice), and an anchor that was MOVED is found again by its name."""
+        from .inline import baseline, qualnames
+
+        base = baseline()
+        reg: Dict[str, list] = {}
+        self.new_functions: Dict[str, list] = reg
+        if not base or not INLINE:
+            return
+        mods = set()
+        for m in self.modules.values():
+            if not m.relpath.startswith(PKG) or m.relpath.startswith(PKG + "/resources"):
+                continue
+            mods.add(m.modname.split(".")[-1])
+            byq = {}
+            for qn, d, cls, outer in qualnames(m.tree):
+                byq[qn] = d
+                if (m.relpath, qn) in base:
+                    continue
+                decs = [ast.unparse(x) for x in d.decorator_list]
+                if any(x not in ("staticmethod", "classmethod") for x in decs):
+                    continue
+                if any(isinstance(x, (ast.Yield, ast.YieldFrom, ast.Await, ast.Global, ast.Nonlocal)) for x in ast.walk(d)):
+                    continue
+                # a method's class: the qualname prefix
+                cname = qn.rsplit(".", 1)[0] if cls is not None else None
+                reg.setdefault(d.name, []).append({"node": d, "module": m.tree, "relpath": m.relpath, "qualname": qn, "cls": cname.split(".")[-1] if cname else None,
+                                                  "outer": byq.get(outer) if outer else None, "static": "staticmethod" in decs, "classmethod": "classmethod" in decs})
+        if reg:
+            reg["$modules"] = mods
+            for m in self.modules.values():
+                m.tree._splice = reg
 
     def _register_namedtuple_returns(self) -> None:
         from . import flow as _flow
